@@ -21,13 +21,13 @@ import (
 func init() {
 	Registry["C10"] = &Check{
 		Scenarios: c10Scenarios,
-		Rule: "message flag bits P and T rotate with the position in the history; server side: every history of <=4 (thorough 5) peer messages over {acceptable CER, CER without common application, retransmitted CER, DWR, RAR (app 0), RAA, CCR (app 4), ACR (app 3)}; client side (sm.Client.NewConn): every history of <=4 (thorough 5) messages over {success CEA, failing CEA (result code rotating over 5010, 1001, 3004, 1, 4001, 5012), application-less CEA, a CER sent by the peer, DWR, RAR, RAA, CCA} sent in reply to the CER; application handlers registered by short name, by index and as catch-all (three configurations), each after attempts to register CER / CEA / DWR by name and by index; each history delivered in one segment and one segment per message; and histories (one shorter, with an unsolicited success CEA added to the alphabet) on an accepted connection served by a state machine that is also the handler of an sm.Client whose dial has completed. Plus scheduled scenarios (preemption bound 2, thorough 3): the peer never answers the CER and sends application requests half an interval before, exactly at and half an interval after the instant the client's handshake gives up. One deterministic schedule per history on the instrumented build (the quantifier is over histories; the scheduler supplies determinism and an exact notion of quiescence). Oracle: the sequence of application-handler invocations equals the gate model (invoked iff the handshake succeeded earlier on this connection), refused registrations never run, and the built-in CEA/DWA are still produced.",
+		Rule: "on the server side another peer has completed its capabilities exchange with the same state machine on a connection of its own before every history; message flag bits P and T rotate with the position in the history; server side: every history of <=4 (thorough 5) peer messages over {acceptable CER, CER without common application, CER lacking Origin-Host and every application AVP, retransmitted CER, DWR, RAR (app 0), RAA, CCR (app 4), ACR (app 3)}; client side (sm.Client.NewConn): every history of <=4 (thorough 5) messages over {success CEA, failing CEA (result code rotating over 5010, 1001, 3004, 1, 4001, 5012), application-less CEA, a CER sent by the peer, DWR, RAR, RAA, CCA} sent in reply to the CER; application handlers registered by short name, by index and as catch-all (three configurations), each after attempts to register CER / CEA / DWR by name and by index; each history delivered in one segment and one segment per message; and histories (one shorter, with an unsolicited success CEA added to the alphabet) on an accepted connection served by a state machine that is also the handler of an sm.Client whose dial has completed. Plus scheduled scenarios (preemption bound 2, thorough 3): the peer never answers the CER and sends application requests half an interval before, exactly at and half an interval after the instant the client's handshake gives up. One deterministic schedule per history on the instrumented build (the quantifier is over histories; the scheduler supplies determinism and an exact notion of quiescence). Oracle: the sequence of application-handler invocations equals the gate model (invoked iff the handshake succeeded earlier on this connection), refused registrations never run, and the built-in CEA/DWA are still produced.",
 		Assume: []string{"single default schedule per history", "reference gate model {handshake done, closed}"},
 		QuickBudget: 120, ThoroughBudget: 1800,
 	}
 }
 
-var c10ServerAlpha = []string{"cer", "cer-noapp", "cer-retx", "dwr", "rar", "raa", "ccr", "acr"}
+var c10ServerAlpha = []string{"cer", "cer-noapp", "cer-bare", "cer-retx", "dwr", "rar", "raa", "ccr", "acr"}
 var c10FailCodes = []uint32{5010, 1001, 3004, 1, 4001, 5012}
 
 var c10ClientAlpha = []string{"cea", "cea-fail", "cea-noapp", "cer", "dwr", "rar", "raa", "cca"}
@@ -50,6 +50,10 @@ func c10Msg(kind string, seq int) []byte {
 		return refcodec.EncodeMessage(h(0x80, 257, 0), cerAVPs(4))
 	case "cer-noapp":
 		return refcodec.EncodeMessage(h(0x80, 257, 0), cerAVPs(999))
+	case "cer-bare":
+		// unacceptable only because AVPs are ABSENT: no Origin-Host, no application AVP at all
+		return refcodec.EncodeMessage(h(0x80, 257, 0), []refcodec.Node{ident(296, "test"), {Code: 257, Flags: 0x40, Payload: refcodec.Address(1, []byte{10, 0, 0, 9})},
+			u32avp(266, 13), {Code: 269, Payload: []byte("x")}})
 	case "dwr":
 		return refcodec.EncodeMessage(h(0x80, 280, 0), base)
 	case "rar":
@@ -252,7 +256,7 @@ func c10Shared(r *SeqResult, cfg string, hists [][]string) {
 				if !hs && !closed && !sawCEA {
 					hs = true
 				}
-			case "cer-noapp":
+			case "cer-noapp", "cer-bare":
 				if !hs && !closed && !sawCEA {
 					closed = true
 				}
@@ -308,6 +312,15 @@ func c10Server(r *SeqResult, cfg string, oneSeg bool, hists [][]string) {
 			conn.Pieces = 1
 			mach := sm.New(c10Settings())
 			c10Register(mach, cfg, run)
+			// another peer has completed its capabilities exchange with this state machine before (on a
+			// connection of its own): nothing of it may carry over to this connection
+			pre := vnet.NewConn("P")
+			pre.Pieces = 1
+			pre.Deliver(c10Msg("cer", 90))
+			if _, err := diam.NewConn(pre, "earlier-peer", mach, dict.Default); err != nil {
+				panic(err)
+			}
+			vs.BlockObj("wait-earlier-handshake", pre, func() bool { return len(pre.Out) > 0 || pre.Closed })
 			var all []byte
 			for i, k := range hist {
 				m := c10Msg(k, i)
@@ -342,6 +355,11 @@ func c10Server(r *SeqResult, cfg string, oneSeg bool, hists [][]string) {
 				if !hs && !closed {
 					closed = true
 					wantCEA = append(wantCEA, 5010)
+				}
+			case "cer-bare":
+				if !hs && !closed {
+					closed = true
+					wantCEA = append(wantCEA, 5012)
 				}
 			case "dwr":
 				if !closed {
